@@ -140,18 +140,31 @@ fn table_role(p: &FP, roles: &HashMap<u32, (u8, u32, u32)>) -> Value {
 /// Emit the trace of one verify_batch call. Returns false when the call is not suitable for arithmetic validation
 /// (a point shared between roles), in which case only the transcript part is emitted.
 pub fn verify_trace(rec: &CallRec, toks: &mut Toks, arith: bool, out: &mut Vec<Value>) {
-    // An accepted batch above the chunk limit is several verifications, one per chunk of 256 members, each with its own
+    // An accepted batch above the chunk limit is several verifications, one per chunk, each with its own
     // weights and its own final check: one implementation call = several specification calls. The recorded events are
     // split by chunk (transcript operations by time window, final checks in order) and every chunk is emitted as a call.
-    const CH: usize = 256;
     let info = &rec.info;
     let np = info["members"].as_array().map(|a| a.len()).unwrap_or(0);
     let ntrans = info["ntrans"].as_u64().unwrap_or(0) as usize;
     let mixed_pos: Vec<usize> = rec.group.iter().enumerate().filter(|(_, g)| matches!(g, GEv::Mixed(_))).map(|(i, _)| i).collect();
-    let nch = (np + CH - 1) / CH;
-    if np > CH && info["result"] == "ok" && info["nstmts"].as_u64() == Some(np as u64) && info["nproofs"].as_u64() == Some(np as u64) && ntrans == np && mixed_pos.len() == nch {
-        let caller: Vec<(usize, u64)> = rec.merlin.iter().enumerate().filter_map(|(i, e)| if let Ev::TNew { tid, .. } = e { Some((i, *tid)) } else { None }).take(ntrans).collect();
-        let chunk_of: HashMap<u64, usize> = caller.iter().enumerate().map(|(x, (_, t))| (*t, x / CH)).collect();
+    let nch = mixed_pos.len();
+    // how many members each chunk holds is read off the recording, not assumed: every chunk has its own weight transcript
+    // (created by the library), to which each of its members contributes once after the transcript's own label
+    let caller_all: Vec<(usize, u64)> = rec.merlin.iter().enumerate().filter_map(|(i, e)| if let Ev::TNew { tid, .. } = e { Some((i, *tid)) } else { None }).collect();
+    let mut sizes: Vec<usize> = vec![];
+    if caller_all.len() >= ntrans {
+        for (_, w) in caller_all.iter().skip(ntrans) {
+            let appends = rec.merlin.iter().filter(|e| matches!(e, Ev::TAppend { tid, .. } if tid == w)).count();
+            sizes.push(appends.saturating_sub(1));
+        }
+    }
+    if !(sizes.len() == nch && sizes.iter().sum::<usize>() == np && sizes.iter().all(|s| *s > 0)) {
+        sizes.clear();
+    }
+    let bounds: Vec<(usize, usize)> = sizes.iter().scan(0usize, |acc, s| { let lo = *acc; *acc += s; Some((lo, *acc)) }).collect();
+    if nch >= 2 && !bounds.is_empty() && info["result"] == "ok" && info["nstmts"].as_u64() == Some(np as u64) && info["nproofs"].as_u64() == Some(np as u64) && ntrans == np {
+        let caller: Vec<(usize, u64)> = caller_all.iter().take(ntrans).cloned().collect();
+        let chunk_of: HashMap<u64, usize> = caller.iter().enumerate().map(|(x, (_, t))| (*t, bounds.iter().position(|(lo, hi)| *lo <= x && x < *hi).unwrap_or(0))).collect();
         let ev_tid = |e: &Ev| -> Option<u64> {
             match e {
                 Ev::TNew { tid, .. } | Ev::TAppend { tid, .. } | Ev::TChal { tid, .. } | Ev::RBuild { tid, .. } => Some(*tid),
@@ -193,7 +206,7 @@ pub fn verify_trace(rec: &CallRec, toks: &mut Toks, arith: bool, out: &mut Vec<V
         let monotone = (0..nch).all(|c| starts[c] < rec.merlin.len() && (c == 0 || starts[c - 1] < starts[c]));
         if monotone {
             for c in 0..nch {
-                let (lo, hi) = (c * CH, ((c + 1) * CH).min(np));
+                let (lo, hi) = bounds[c];
                 let mut minfo = info.clone();
                 minfo["members"] = json!(info["members"].as_array().unwrap()[lo..hi].to_vec());
                 if let Some(ms) = info["masks"].as_array() {
